@@ -196,8 +196,18 @@ func Load(o LoadOpts, allSyntax bool) (*Prog, error) {
 			}
 			p.Roots = append(p.Roots, pk)
 		}
+		isRoot := map[*packages.Package]bool{}
+		for _, pk := range pkgs {
+			isRoot[pk] = true
+		}
 		packages.Visit(pkgs, nil, func(pk *packages.Package) {
 			if len(pk.Syntax) == 0 || pk.TypesInfo == nil {
+				return
+			}
+			// without NeedDeps only the packages matched by the patterns are analysed: a dependency
+			// that go/packages re-type-checks from source because an overlay touches it is not
+			// indexed a second time (its objects would differ from the root instance's)
+			if !allSyntax && !isRoot[pk] {
 				return
 			}
 			if strings.HasSuffix(pk.ID, ".test") || strings.Contains(pk.ID, " [") {
